@@ -48,13 +48,20 @@ CLAIMED = {
         'reading for canon streams: "it" is the ELEMENT the producer produced, so `#c.$.[i]` keeps the element tetraplet and `#c.$.[i].path` must append the path after the index (as the canon-map sibling does); upstream pins the first half (ap.rs) and, against the statement, the lens-less second half (fold_stream_map): recorded known finding F16',
         'a `.length` result carries ("", "", "", ".length") or (current peer, "", "", ".length"), pinned upstream (functor_dont_influence_tetraplet): accepted reading, neither names a producer',
         'SecurityTetraplet::{new, literal_tetraplet, add_lens} live in the registry crate marine-call-parameters (outside /repo): shim checked by the bounded native job C17.tetraplet_shim; lens texts (Display, format!) are uninterpreted; dyn JValuable / Box<dyn Iterable> dispatch goes through hand-written traits; MsgPack serialisation of arguments and tetraplets is trusted',
-        'not covered: lens on a canon MAP (select_by_lambda_from_canon_map and below: uninterpreted), how canon streams/maps get their element tetraplets (canon instruction, canon replay), where an error descriptor\'s tetraplet is set, `ap` (observation O2 in DESIGN.md section 5)',
+        'lens on a canon MAP (unit tetraplets_map): element tetraplet unchanged for `#%m.$.k.[i]`, element lens ++ "." ++ joined path for a longer lens, the map\'s own tetraplet with the whole lens text for `#%m.$.k`, (current peer, "", "", functor text) for `.length`; assumed there: the lens/accessor texts are uninterpreted, `format!(".{}", a)` is "." ++ a, a canon map\'s own lens is empty (it is built as (peer, "", "", "") and verify_canon admits no other), 10 narrow rewrites for iterator chains and `&impl ToString`',
+        'not covered: how canon streams/maps get their element tetraplets (canon instruction, canon replay), where an error descriptor\'s tetraplet is set, `ap` (observation O2 in DESIGN.md section 5)',
     ]),
     'C18': dict(assumptions=[GAP, 'behaviour inside par/fold/new is not covered']),
     'C19': dict(assumptions=[GAP, 'quiescence of finished histories is not covered; dedup is a bounded native check']),
     'C21': dict(assumptions=['Ord for semver::Version is axiomatised as a strict total order; conformance of that axiom is a native check of a trusted dependency']),
     'C22': dict(assumptions=['"otherwise behaves exactly as an unlimited run" is covered only as: the flags are the only thing the check changes in execute_air_impl',
                              'the per-call-result check in make_exec_ctx (closure over HashMap::values) is outside the lifted text']),
+    'C23': dict(assumptions=[
+        'scoping half only, on the real validator.rs: every met_* callback covers every variable operand of its instruction as a use at the instruction\'s span (operands enumerated from the AST definitions; the source stream/map of canon is deliberately not a checked use) and records every output as a definition, fold iterator or next; finalize reports nothing => every recorded use has a definition starting earlier or a fold with that iterator ENCLOSING it; lemma accepted_script_is_well_scoped joins the two sides',
+        'two recorded known findings, pinned by upstream tests and kept failing as obligations of their own: (b) only the first `next` per iterator name is checked against the folds (MultiMap::iter), (d-fail) the operand of `fail` is never handed to the validator',
+        'assumed: a shim of multimap 0.9.1 (insert, get_vec, iter = first value per key, flat_iter; stored vectors non-empty), the &str key model, Rc::deref, Iterator::last, derived PartialEq/Ord/Default; the four other check_* functions and sort_iterator_definitions are stubs ("only add errors" / "permute each iterator\'s folds"); the after-next machine is opaque; 27 body and 8 signature rewrites (mut self, .last())',
+        'NOT proved: that the generated LALR(1) driver calls each callback with its instruction\'s span, that an accepted tree has no error node, totality of the lexers and the driver on arbitrary text: only the bounded native jobs C23.scope.* (every script of <= 3 instructions over the full alphabet / <= 5 over a reduced one against an independent scoping oracle: 143 879 scripts, thorough 2 272 808) and C01.parse_total (no panic on mutated scripts)',
+    ]),
     'C24': dict(assumptions=['JSON arrays/objects are opaque payloads with uninterpreted views (Rc<[JValue]>::get, BTreeMap::get external); canon-map key conversion (StreamMapKey::from_value*, try_scalar_ref_as_stream_map_key) is covered, canon stream first-index selection (iterator nth) is not']),
     'C25': dict(assumptions=['Verus: second sentence (verification accepts exactly matching pairs); cid parsing, Multihash and the digest functions are external with uninterpreted results',
                              'first sentence (the id does not depend on how the value was built) only by the bounded native job C25.canonical with real hashes on boundary JSON values']),
@@ -80,7 +87,6 @@ NOT_APPLICABLE = {
     'C04': 'protocol invariant over all interleavings of multi-peer histories; no single call has a pre/postcondition stating it',
     'C16': 'needs a reference semantics of AIR programs and a simulation relation (translation validation: another family)',
     'C20': 'two-run (2-safety) statement whose only enemy is RandomState-dependent HashMap iteration order; Verus abstracts the map, Kani must fix the hasher keys',
-    'C23': '9.6 kLOC generated table-driven LALR(1) driver over &str plus a HashMap<&str,Span> validator driven by generated actions: outside Verus, beyond CBMC bounds',
 }
 # claimed in DESIGN.md but whose units are not registered yet (kept current as units land)
 PENDING = {}
